@@ -52,7 +52,51 @@ def snake_to_camel(name):
     return parts[0] + "".join(p.capitalize() for p in parts[1:])
 
 
+def container_values_rules(ctx, R="R5"):
+    """what goes into the containers is what comes out: (1) BinaryCIFData keeps the array it is given - conversions to another dtype
+    happen in `as_array` on request (and in the encodings, behind their range checks), never at construction, where a plain `astype`
+    wraps a 64-bit value around before anything can refuse it; (2) an element assigned in serialised form (a dict) is parsed at once into an
+    object of the container's own - the caller's dict is never kept (it is written into when the file is serialised)"""
+    from .. import machine
+    from ..exprnorm import canon as _canon
+    COMP = "structure/io/pdbx/component.py"
+    allowed = {"BinaryCIFColumn.as_array"}
+    n = 0
+    for rel in (BCIF, COMP):
+        src = ctx.src(rel)
+        for q, f in src.funcs.items():
+            if any(q != q2 and q.startswith(q2 + ".") and q2 in src.funcs for q2 in src.funcs):
+                continue
+            conv = [c for c in ast.walk(f) if isinstance(c, ast.Call) and isinstance(c.func, ast.Attribute) and c.func.attr == "astype"]
+            if not conv:
+                continue
+            n += 1
+            ctx.ob(f"{R}.values-converted-on-request-only", rel, q, conv[0], q in allowed,
+                   f"{q} converts data with a plain astype(): values outside the target type wrap around silently (2**32 + 5 becomes 5) instead of being "
+                   "refused by the encodings' range checks", conv[0].lineno)
+    ctx.floor("astype-sites", n, 1)
+    f = ctx.src(COMP).func("_HierarchicalContainer.__setitem__")
+    elem = param_names(f)[2]
+    k_inst = repr(_canon(ast.parse(f"isinstance({elem}, self.subcomponent_class())", mode="eval").body))
+    bad = []
+    for w in machine.ways(f.body, {elem}):
+        if w.exit is not None:
+            continue
+        parsed = any(u.startswith(f"{elem} = ") and ".deserialize(" in u for u in w.updates) or "<block>" in w.updates
+        # (the class may have been looked up into a local first: any positive instance test of the element other than for the plain
+        # serialised forms counts as "is an object of the container's kind")
+        is_obj = k_inst in w.conds or any(c_.startswith(f"('call', 'isinstance', '{elem}', ") and not any(t_ in c_ for t_ in ("'dict'", "'str'", "'bytes'", "'list'"))
+                                          for c_ in w.conds)
+        if not is_obj and not parsed:
+            bad.append(sorted(w.conds))
+    ctx.ob(f"{R}.assigned-element-owned", COMP, "_HierarchicalContainer.__setitem__", f"{elem}: an instance of subcomponent_class(), or deserialised on the way in",
+           not bad,
+           "an element that is not an object of the container's class is stored as it was given: the caller's dict is kept, and serialising the file "
+           "writes the key into it - the same dict put under two keys is written twice under the second", f.lineno)
+
+
 def run(ctx):
+    container_values_rules(ctx, "R5")
     from .C06 import serialized_key_rule
     serialized_key_rule(ctx, "R5.element-written-under-its-key")
     # reading a column (as_array with a masked_value, as_item, serialize, ==) must not write into the column
@@ -231,6 +275,22 @@ def compress_rules(ctx, R="R3", with_downcast=True):
     ctx.ob(R + ".same-factor", COMPRESS, "_compress_data", ast.unparse(fp[0]) if fp else "-",
            bool(fp) and isinstance(fp[0].args[0], ast.Name) and (not guards or fp[0].args[0].id in names_in(guards[0].ast.test)),
            "the factor that is range-tested must be the factor that is used", cd.lineno)
+    # what compress() hands back is the ARRAY under an encoding chosen here: the encoding the input came with plays no part (it may be
+    # a lossy one - a coarse fixed-point step, a quantisation - and would defeat the tolerance), neither as the result nor as the size to beat
+    aparam = param_names(cd)[0]
+    rets = [st for st in ast.walk(cd) if isinstance(st, ast.Return) and st.value is not None]
+    own = [st for st in rets if isinstance(st.value, ast.Name) and st.value.id == aparam]
+    rebuilt = [st for st in rets if isinstance(st.value, ast.Call) and (call_name(st.value) or "").split(".")[-1] == "BinaryCIFData" and st.value.args
+               and isinstance(st.value.args[0], ast.Name) and st.value.args[0].id != aparam]
+    ctx.ob(R + ".result-built-from-array", COMPRESS, "_compress_data", f"{len(rets)} result(s), {len(rebuilt)} built as BinaryCIFData(array, ..)",
+           not own and len(rebuilt) == len(rets),
+           "a result that is the input object (or is not built from the array) keeps whatever encoding the input had: with a lossy input "
+           "encoding the error of compress(data, float_tolerance) is that of the old encoding, not the tolerance", (own or rets)[0].lineno)
+    sizes = [c for c in calls(cd) if call_name(c) == "_data_size_in_file"]
+    ctx.ob(R + ".result-built-from-array", COMPRESS, "_compress_data", "the size to beat is that of the plain array",
+           bool(sizes) and all(len(c.args) == 1 and not (isinstance(c.args[0], ast.Name) and c.args[0].id == aparam) for c in sizes),
+           "the candidate is compared with the size of the input under the encoding it came with: a small lossy input wins and is kept",
+           sizes[0].lineno if sizes else cd.lineno)
     if with_downcast:
         from .C04 import downcast_bounds
         downcast_bounds(ctx, R + ".downcast-bounds")
